@@ -12,7 +12,7 @@ import os, re, sys
 
 VERIF = os.path.dirname(os.path.dirname(os.path.abspath(__file__)))
 REPO = os.environ.get("VERIF_REPO", "/repo")
-OUT = os.path.join(VERIF, "lean", "DicomModel", "Gen", "JsonVrTables.lean")
+OUT = os.path.join(os.environ.get("VERIF_LEAN_DIR") or os.path.join(VERIF, "lean"), "DicomModel", "Gen", "JsonVrTables.lean")
 ALL = "AE AS AT CS DA DS DT FL FD IS LO LT OB OD OF OL OV OW PN SH SL SQ SS ST SV TM UC UI UL UN UR US UT UV".split()
 
 
